@@ -62,10 +62,10 @@ type Doc struct {
 }
 
 var words = []string{"", "a", "ab", "abc", "foo", "bar", "baz", "foobar", "web-1", "web-2", "db", "10.0.0.1", "x y", "Ünï", "true", "42", "red", "blue"}
-var keyWords = []string{"a", "b", "c", "foo", "bar", "x", "name", "tags", "meta", "n", "k1", "k2", "k3", "co:lon", "with space", "ünï", "0", "Name", "NAME", "Foo", "FOO", "Env", "ENV", "env", "9", "10", "1a", "2", "4a"}
+var keyWords = []string{"a", "b", "c", "foo", "bar", "x", "name", "tags", "meta", "n", "k1", "k2", "k3", "co:lon", "with space", "ünï", "0", "Name", "NAME", "Foo", "FOO", "Env", "ENV", "env", "9", "10", "1a", "2", "4a", "sl/ash", "ti~lde", "dot.ted", "", "a b", "-"}
 
 // DatumGens lists the constructors for Evaluate data.
-var DatumGens = []string{"doc", "docptr", "json", "jsonnum", "tmap:int", "tmap:slice", "tmap:map", "tmap:ptr", "tmap:any", "tmap:inner", "tmap:ikey", "tmap:nkey", "longlist"}
+var DatumGens = []string{"doc", "docptr", "json", "jsonnum", "tmap:int", "tmap:slice", "tmap:map", "tmap:ptr", "tmap:any", "tmap:inner", "tmap:ikey", "tmap:nkey", "longlist", "odd", "odd"}
 
 // CollGens lists the constructors for Filter.Execute containers.
 var CollGens = []string{"coll:slice", "coll:ptrslice", "coll:array", "coll:arrayptr", "coll:arrayany", "coll:arraymap", "coll:map", "coll:intmap", "coll:named", "coll:namedmap", "coll:jsonlist", "coll:anys", "coll:nilslice", "coll:empty", "coll:anymap", "coll:ptrmap", "coll:scalar"}
@@ -82,6 +82,8 @@ func Build(d DatumSpec) interface{} {
 		v = genJSON(r, 0, false)
 	case d.Gen == "jsonnum":
 		v = genJSON(r, 0, true)
+	case d.Gen == "odd":
+		v = genOdd(r)
 	case d.Gen == "nil":
 		v = nil
 	case d.Gen == "scalar":
@@ -358,6 +360,66 @@ func genJSON(r *plan.Rand, depth int, useNumber bool) interface{} {
 		m[r.Pick(keyWords)] = val(depth + 1)
 	}
 	return m
+}
+
+// Odd shapes reflection-based code tends to forget: pointers to pointers,
+// embedded structs, named primitive types, typed nils inside interfaces,
+// arrays of arrays, maps with non-string keys, deep nesting.
+type Embedded struct {
+	EmbX int
+	EmbS string `bexpr:"embs"`
+}
+
+type NamedInt int
+type NamedBool bool
+
+type OddDoc struct {
+	Embedded
+	PP       **Inner
+	NI       NamedInt
+	NB       NamedBool
+	NS       NamedStr
+	TypedNil interface{}
+	Grid     [2][2]int
+	ByInt    map[int]Inner
+	ByBool   map[bool]string
+	Deep     map[string]interface{}
+	Iface    interface{}
+	Strs     []NamedStr
+	PtrS     *[]int
+	PtrM     *map[string]int
+	Empty    struct{}
+}
+
+func genOdd(r *plan.Rand) interface{} {
+	in := genInner(r, 1)
+	pin := &in
+	xs := spareInts(r, listLen(r, 4))
+	m := map[string]int{"a": r.Range(0, 3), "b": r.Range(0, 3)}
+	d := OddDoc{
+		Embedded: Embedded{EmbX: r.Range(0, 5), EmbS: r.Pick(words)},
+		PP:       &pin,
+		NI:       NamedInt(r.Range(-3, 12)),
+		NB:       NamedBool(r.Chance(0.5)),
+		NS:       NamedStr(r.Pick(words)),
+		TypedNil: (*Inner)(nil),
+		Grid:     [2][2]int{{r.Intn(3), r.Intn(3)}, {r.Intn(3), r.Intn(3)}},
+		ByInt:    map[int]Inner{1: genInner(r, 1), 22: genInner(r, 1)},
+		ByBool:   map[bool]string{true: r.Pick(words), false: r.Pick(words)},
+		Iface:    genInner(r, 1),
+		Strs:     []NamedStr{NamedStr(r.Pick(words)), NamedStr(r.Pick(words))},
+		PtrS:     &xs,
+		PtrM:     &m,
+	}
+	deep := map[string]interface{}{"leaf": r.Range(0, 3), "s": r.Pick(words)}
+	for i := 0; i < 6; i++ {
+		deep = map[string]interface{}{"d": deep, "n": i, "l": []interface{}{i, deep["s"]}}
+	}
+	d.Deep = deep
+	if r.Chance(0.5) {
+		return &d
+	}
+	return d
 }
 
 // genLongList: lists well beyond any small-size fast path whose elements are
